@@ -43,6 +43,20 @@ def main():
     job = json.load(sys.stdin)
     classes, funcs, enums, consts = load_world(job["repo"])
     from pyvc import concrete
+    # record what contracted callees return, for callres(...) in contract clauses
+    import functools
+
+    def recorder(name, f):
+        @functools.wraps(f)
+        def w(*a, **k):
+            r = f(*a, **k)
+            concrete.RECORDED.setdefault(name, []).append(r)
+            return r
+        return w
+    for cname in ("AbsoluteSequence", "Sequence"):
+        c = classes.get(cname)
+        if c is not None and "get_interleaved_message_pairings" in c.__dict__:
+            setattr(c, "get_interleaved_message_pairings", recorder("get_interleaved_message_pairings", c.__dict__["get_interleaved_message_pairings"]))
     import importlib.util
     sp = importlib.util.spec_from_file_location('concrete_spec', os.path.join(HERE, 'contracts', 'concrete_spec.py'))
     concrete_spec = importlib.util.module_from_spec(sp); sp.loader.exec_module(concrete_spec)
